@@ -1069,6 +1069,57 @@ pub fn check_iterators(p: &Program, r: &RunResult) -> Vec<String> {
             }
         }
     }
+    // retain / retain_force consult their predicate for every entry nobody else touches meanwhile
+    // (without concurrent writers they equal the standard retain): a present key that no other call
+    // writes during the call must be shown to the predicate
+    for c in &r.calls {
+        if let (COp::Retain(_) | COp::RetainForce(_), Res::Retained(log)) = (&c.op, &c.out) {
+            let (created, end) = (c.inv, c.res);
+            for k in 0..p.universe {
+                let ws: Vec<(u64, u64, Option<i64>)> =
+                    writes.get(&k).cloned().unwrap_or_default().into_iter().filter(|w| !(w.0 == created && w.1 == end)).collect();
+                let touched = ws.iter().any(|(winv, wres, _)| *wres >= created && *winv <= end && !(*winv == 0 && *wres == 0));
+                if touched {
+                    continue;
+                }
+                let done: Vec<&(u64, u64, Option<i64>)> = ws.iter().filter(|w| w.1 < created || (w.0 == 0 && w.1 == 0)).collect();
+                let last = done.iter().find(|w| done.iter().all(|o| std::ptr::eq(*o, **w) || o.1 < w.0 || (o.0 == 0 && o.1 == 0 && !(w.0 == 0 && w.1 == 0))));
+                let present = matches!(last, Some((_, _, Some(_))));
+                let shown = log.iter().filter(|e| e.1 == k).count();
+                if present && shown == 0 {
+                    out.push(format!(
+                        "C13: {:?} (thread {}, steps {}..{}) never showed key {} to its predicate although the key was present and untouched by any other call throughout - it cannot have removed what the predicate would reject",
+                        c.op, c.tid, created, end, k
+                    ));
+                }
+            }
+        }
+    }
+    out
+}
+
+/// reads never block (C12): when a run hits the step limit, a thread that was inside a read
+/// operation and has itself made a large share of the steps is a reader that spins
+pub fn stuck_reads(p: &Program, r: &RunResult) -> Vec<String> {
+    let mut out = Vec::new();
+    if r.verdict != Verdict::StepLimit {
+        return out;
+    }
+    for tid in 0..p.threads.len() {
+        let done = r.calls.iter().filter(|c| c.tid == tid).count();
+        if done >= p.threads[tid].len() {
+            continue;
+        }
+        let op = &p.threads[tid][done];
+        let is_read = matches!(op, COp::Get(_) | COp::GetKeyValue(_) | COp::ContainsKey(_) | COp::Iter | COp::Len);
+        let mine = r.steps_of.get(tid).cloned().unwrap_or(0);
+        if is_read && mine > 2000 && mine * 4 > r.steps {
+            out.push(format!(
+                "C12: the read operation {:?} of thread {} never returned - the thread made {} of the run's {} shared-memory steps and was still inside it at the step limit (a lookup must complete whatever writers do)",
+                op, tid, mine, r.steps
+            ));
+        }
+    }
     out
 }
 
